@@ -2,6 +2,8 @@ package core
 
 import (
 	"fmt"
+	"go/token"
+	"go/types"
 	"regexp"
 	"sort"
 	"strings"
@@ -592,4 +594,162 @@ func (r FLAG) Check(w *World) []Result {
 		out = append(out, one(r.ID, "FLAG", construct, Discharged, len(sites), w.InstrPos(sites[0]), "flag forced false on every matching branch; effect requires the flag"))
 	}
 	return out
+}
+
+// ---------------------------------------------------------------------------
+// ERRFLOW — fail closed
+
+// ERRFLOW: in Fn (closures included), for every branch that tests an error value `X == nil` / `X != nil`,
+// the edge on which the error is non-nil must not reach a site of Sink — unless the path first passes a
+// *classification* of that same error (a literal `+Is…(X)` such as IsNotFound / IsNodeClaimNotFoundError:
+// reacting to a recognised error is the intended behaviour), or X matches an audited Exempt pattern.
+type ERRFLOW struct {
+	ID     string
+	Fn     string
+	Sink   string
+	Exempt []string // regexps on the rendering of the tested error value, one reason each in Note
+	Min    int      // minimum number of error tests examined (default 1)
+	Note   string
+}
+
+func (r ERRFLOW) RuleID() string { return r.ID }
+
+var classifyRe = regexp.MustCompile(`(^|[./)])(Is[A-Z]\w*|IsNotFound|IsConflict)\(`)
+
+func isErrorType(t types.Type) bool {
+	n, ok := t.(*types.Named)
+	return ok && n.Obj().Pkg() == nil && n.Obj().Name() == "error"
+}
+
+func (r ERRFLOW) Check(w *World) []Result {
+	fn := w.Fn(r.Fn)
+	if fn == nil {
+		return anchorMissing(r.ID, "ERRFLOW", r.Fn)
+	}
+	construct := "ERRFLOW:" + r.Fn + "▸" + r.Sink
+	sinkRe := regexp.MustCompile(r.Sink)
+	sinks := w.Sites(fn, sinkRe, true)
+	if len(sinks) == 0 {
+		return []Result{one(r.ID, "ERRFLOW", construct, Violated, 0, w.Pos(fn.Pos()), "vacuous: sink not found in "+r.Fn)}
+	}
+	exempt := compileAll(r.Exempt)
+	var out []Result
+	tests := 0
+	for _, s := range sinks {
+		// examine the function containing the sink and, for closures, every enclosing function with the closure site as proxy sink
+		var target ssa.Instruction = s
+		for f := s.Parent(); f != nil; {
+			for _, b := range f.Blocks {
+				if len(b.Instrs) == 0 {
+					continue
+				}
+				ifi, ok := b.Instrs[len(b.Instrs)-1].(*ssa.If)
+				if !ok || len(b.Succs) != 2 || b.Succs[0] == b.Succs[1] {
+					continue
+				}
+				x, errEdge, ok := errTest(ifi.Cond)
+				if !ok {
+					continue
+				}
+				tests++
+				xr := w.Render(x)
+				if matchAnyStr(xr, exempt) {
+					continue
+				}
+				// cut: classification of the same error taken positively
+				c := newCut()
+				for _, b2 := range f.Blocks {
+					t, fl, ok := w.BlockLits(b2)
+					if !ok {
+						continue
+					}
+					for i, l := range []Lit{t, fl} {
+						if l.Pol && classifyRe.MatchString(l.Expr) && errRoot(xr, l.Expr) {
+							c.Edges[EdgeKey{b2, i}] = true
+						}
+					}
+				}
+				reach := Reach([]*ssa.BasicBlock{b.Succs[errEdge]}, c)
+				tb := target.Block()
+				bad := false
+				if reach[tb] {
+					bad = true
+					// same block: only if target is after the start — start is a block entry, so any instr counts
+				}
+				if bad {
+					out = append(out, one(r.ID, "ERRFLOW", construct+"⇐"+clip(xr, 80), Violated, len(sinks), w.InstrPos(ifi),
+						fmt.Sprintf("fail-open: in %s the branch on which `%s` is non-nil can still reach `%s` (@%s)", FnName(f), clip(xr, 120), clip(w.RenderInstr(s), 100), w.InstrPos(s))))
+				}
+			}
+			mc := w.ClosureSite[f]
+			if mc == nil {
+				break
+			}
+			target = mc
+			f = mc.Parent()
+		}
+	}
+	min := r.Min
+	if min == 0 {
+		min = 1
+	}
+	if tests < min {
+		return []Result{one(r.ID, "ERRFLOW", construct, Violated, tests, w.Pos(fn.Pos()), fmt.Sprintf("vacuous: %d error tests examined, %d confirmed by hand", tests, min))}
+	}
+	if len(out) == 0 {
+		out = append(out, one(r.ID, "ERRFLOW", construct, Discharged, tests, w.InstrPos(sinks[0]), fmt.Sprintf("%d error test(s) × %d sink site(s): no error edge reaches the sink", tests, len(sinks))))
+	}
+	return out
+}
+
+// errTest recognises `x == nil` / `x != nil` on an error-typed x (through ! as well) and returns the successor index of the non-nil edge.
+func errTest(cond ssa.Value) (ssa.Value, int, bool) {
+	neg := false
+	for {
+		u, ok := cond.(*ssa.UnOp)
+		if !ok || u.Op != token.NOT {
+			break
+		}
+		neg = !neg
+		cond = u.X
+	}
+	bo, ok := cond.(*ssa.BinOp)
+	if !ok || bo.Op != token.EQL && bo.Op != token.NEQ {
+		return nil, 0, false
+	}
+	x := bo.X
+	if isNilConst(bo.X) {
+		x = bo.Y
+	} else if !isNilConst(bo.Y) {
+		return nil, 0, false
+	}
+	if !isErrorType(x.Type()) {
+		return nil, 0, false
+	}
+	nonNilOnTrue := bo.Op == token.NEQ
+	if neg {
+		nonNilOnTrue = !nonNilOnTrue
+	}
+	if nonNilOnTrue {
+		return x, 0, true
+	}
+	return x, 1, true
+}
+
+// errRoot: does the classification literal talk about the same error value (its innermost call) as xr?
+func errRoot(xr, litExpr string) bool {
+	if strings.Contains(litExpr, xr) {
+		return true
+	}
+	// wrapper(err): compare on the wrapped operand
+	if i := strings.LastIndex(xr, "("); i >= 0 {
+		inner := strings.TrimSuffix(xr[i+1:], ")")
+		for strings.HasSuffix(inner, ")") && strings.Count(inner, "(") < strings.Count(inner, ")") {
+			inner = strings.TrimSuffix(inner, ")")
+		}
+		if len(inner) > 8 && strings.Contains(litExpr, inner) {
+			return true
+		}
+	}
+	return false
 }
